@@ -53,7 +53,9 @@ class C15(Prop):
                 # takes `gap` ms per frame
                 c['busy'] = {'at': rng.randint(0, max(1, horizon // 2)), 'size': rng.choice([600, 2000, 6000]), 'gap': rng.choice([7, 40, P // 2 + 1, P + 3])}
             if pat in ('never', 'stops', 'slow') and rng.random() < 0.5:
-                c['again'] = True      # after the timeout the application reconnects: the second connection is a connected client again
+                c['again'] = 'timeout'      # after the timeout the application reconnects: the second connection is a connected client again
+            elif pat == 'always' and rng.random() < 0.5:
+                c['again'] = 'on_close'     # the server ends the (healthy) connection and the application reconnects from inside on_close
             out.append(c)
         for _ in range(60 if tier == 'quick' else 1500):
             out.append({'kind': 'echo', 'role': rng.choice(['client', 'server']),
@@ -116,9 +118,16 @@ class C15(Prop):
         sends = [round(tm) for e, tm in zip(R.log, R.times) if e == 'K' and (first is None or tm <= first)]
         respond_flags = [bool(e[2].flags_respond) for e in t.sent if isinstance(e[2], F.KeepAliveFrame)]
         again = None
-        if case.get('again') and first is not None:
+        if (case.get('again') == 'timeout' and first is not None) or (case.get('again') == 'on_close' and first is None):
             n_to = len(R.timeouts)
-            await c.reconnect()
+            if case['again'] == 'on_close':
+                from harness import simnet
+                R.reconnect_in_on_close = True
+                t.deliver(simnet.EOF_MARK)
+                await loop.settle()
+                R.reconnect_in_on_close = False
+            else:
+                await c.reconnect()
             await loop.settle()
             t2 = R.transports[1]
             t0 = loop.now_ms()
@@ -173,7 +182,7 @@ class C15(Prop):
         if obs.get('again'):
             g = obs['again']
             if g['ka_in_2_periods'] < 1:
-                fails.append({'signature': 'second-connection-sends-no-keepalive', 'what': 'after the keepalive timeout the client reconnected (first frame on the new transport: %s) and sent no KEEPALIVE within two periods' % g['first']})
+                fails.append({'signature': 'second-connection-sends-no-keepalive', 'what': 'the client reconnected (%s; first frame on the new transport: %s) and sent no KEEPALIVE within two periods' % ('from inside on_close after the server ended the connection' if case.get('again') == 'on_close' else 'after the keepalive timeout', g['first'])})
             if g['timeouts'] < 1:
                 fails.append({'signature': 'second-connection-no-timeout', 'what': 'the server stayed silent for three lifetimes on the second connection and the timeout callback was not invoked'})
         s = obs['sends']
